@@ -794,3 +794,143 @@ pub fn c05_c40_value_sequences() -> Phase {
         wall_cap_s: 0,
     }
 }
+
+/// Fabricated symbols (template-correct fixed pattern) whose data area is uniform except for ONE data row or
+/// ONE data column of the other colour, for every row and column of every size, both polarities; plus the
+/// plain stripe / checkerboard fills. Content that random data never produces.
+pub fn structured_data_fills(prop: &'static str) -> Phase {
+    let mut table: Vec<(usize, u64)> = Vec::new();
+    let mut total = 0u64;
+    for s in 0..N_SIZES {
+        table.push((s, total));
+        total += (SIZES[s].rows + SIZES[s].cols) as u64 * 2 + 6;
+    }
+    let make = move |_ctx: &Ctx, i: u64| -> Trace {
+        let k = match table.binary_search_by(|e| e.1.cmp(&i)) {
+            Ok(k) => k,
+            Err(k) => k - 1,
+        };
+        let (s, first) = table[k];
+        let si = &SIZES[s];
+        let (h, w) = (si.rows, si.cols);
+        let r = (i - first) as usize;
+        let tpl = crate::catalogue::fixed_template(si);
+        let lines = h + w;
+        let bits: Vec<bool> = tpl
+            .iter()
+            .enumerate()
+            .map(|(px, t)| match t {
+                Some(d) => *d,
+                None => {
+                    let (y, x) = (px / w, px % w);
+                    if r < 2 * lines {
+                        let base = r >= lines;
+                        let l = r % lines;
+                        let on_line = if l < h { y == l } else { x == l - h };
+                        on_line != base
+                    } else {
+                        match r - 2 * lines {
+                            0 => y % 2 == 0,
+                            1 => y % 2 == 1,
+                            2 => x % 2 == 0,
+                            3 => x % 2 == 1,
+                            4 => (x + y) % 2 == 0,
+                            _ => (x + y) % 2 == 1,
+                        }
+                    }
+                }
+            })
+            .collect();
+        Trace {
+            prop: prop.into(),
+            producer: Producer::Stream { data: vec![] },
+            faults: vec![Fault::new("geo_replace", Op::GeoReplace { bits, w: w as u32 })],
+        }
+    };
+    Phase {
+        source: Source::Sweep { name: "sweep_structured_data_fills".into(), prop: prop.into(), make: Box::new(make) },
+        runs: total,
+        wall_cap_s: 0,
+    }
+}
+
+/// Every non-empty subset of each small fixed structure flipped together: the 2x2 fixed corner of
+/// 12x12/16x16/20x20/24x24, the four corner modules of the symbol, the four corner modules of every region.
+pub fn c08_small_structure_subsets(seed: u64) -> Phase {
+    let mut table: Vec<(usize, u64)> = Vec::new();
+    let mut total = 0u64;
+    for s in 0..N_SIZES {
+        let si = &SIZES[s];
+        table.push((s, total));
+        let structures = 1 + (si.reg_rows * si.reg_cols) as u64 + if si.has_fixed_corner() { 1 } else { 0 };
+        total += structures * 15;
+    }
+    let make = move |_ctx: &Ctx, i: u64| -> Trace {
+        let k = match table.binary_search_by(|e| e.1.cmp(&i)) {
+            Ok(k) => k,
+            Err(k) => k - 1,
+        };
+        let (s, first) = table[k];
+        let si = &SIZES[s];
+        let (h, w) = (si.rows, si.cols);
+        let rh = h / si.reg_rows;
+        let rw = w / si.reg_cols;
+        let r = i - first;
+        let st = (r / 15) as usize;
+        let subset = (r % 15) + 1;
+        let n_reg = si.reg_rows * si.reg_cols;
+        let quad: [usize; 4] = if st == 0 {
+            [0, w - 1, (h - 1) * w, (h - 1) * w + w - 1]
+        } else if st <= n_reg {
+            let (rr, rc) = ((st - 1) / si.reg_cols, (st - 1) % si.reg_cols);
+            let (r0, c0) = (rr * rh, rc * rw);
+            [r0 * w + c0, r0 * w + c0 + rw - 1, (r0 + rh - 1) * w + c0, (r0 + rh - 1) * w + c0 + rw - 1]
+        } else {
+            [(h - 3) * w + w - 3, (h - 3) * w + w - 2, (h - 2) * w + w - 3, (h - 2) * w + w - 2]
+        };
+        let mut faults = Vec::new();
+        for (b, px) in quad.iter().enumerate() {
+            if subset & (1 << b) != 0 {
+                faults.push(Fault::new("fix_flip", Op::PxFlip { idx: *px as u32 }));
+            }
+        }
+        Trace { prop: "C08".into(), producer: Producer::Raw { size: s, data: seeded_data(seed, s, r % 3) }, faults }
+    };
+    Phase {
+        source: Source::Sweep { name: "sweep_subsets_of_small_fixed_structures".into(), prop: "C08".into(), make: Box::new(make) },
+        runs: total,
+        wall_cap_s: 0,
+    }
+}
+
+/// Charset sections, byte by byte: under ECI 26 / 27 / 3 every pair of high bytes (upper-shifted), ended by
+/// nothing, a pad or a further charset switch; under ECI 26 additionally every triple of high bytes.
+pub fn c05_charset_sections() -> Phase {
+    const PAIRS: u64 = 128 * 128;
+    const TRIPLES: u64 = 128 * 128 * 128;
+    let total = 3 * PAIRS * 3 + TRIPLES;
+    let make = move |_ctx: &Ctx, i: u64| -> Trace {
+        let mut data: Vec<u8> = Vec::new();
+        if i < 3 * PAIRS * 3 {
+            let tail = i % 3;
+            let r = i / 3;
+            let eci = [27u8, 28, 4][(r / PAIRS) as usize];
+            let p = r % PAIRS;
+            data.extend_from_slice(&[241, eci, 235, (p / 128) as u8 + 1, 235, (p % 128) as u8 + 1]);
+            match tail {
+                1 => data.push(129),
+                2 => data.extend_from_slice(&[241, 4, 66]),
+                _ => {}
+            }
+        } else {
+            let t = i - 3 * PAIRS * 3;
+            data.extend_from_slice(&[241, 27, 235, (t / (128 * 128)) as u8 + 1, 235, ((t / 128) % 128) as u8 + 1, 235, (t % 128) as u8 + 1]);
+        }
+        Trace { prop: "C05".into(), producer: Producer::Stream { data }, faults: vec![] }
+    };
+    Phase {
+        source: Source::Sweep { name: "sweep_charset_sections_all_high_byte_pairs_and_triples".into(), prop: "C05".into(), make: Box::new(make) },
+        runs: total,
+        wall_cap_s: 0,
+    }
+}
